@@ -1358,15 +1358,11 @@ class Bits:
         if _verif_os.environ.get('SCOTT_GRIFFITHS_BITSTRING_VERIF') == '1':
             # Verification hook: lets a harness cross the chunk boundary with small data. Inactive unless the variable is set.
             increment = getattr(bitstring, '_verif_findall_chunk_bits', increment)
-        buffersize = min(increment + len(bs), msb0_end - msb0_start)
-        pos = max(msb0_start, msb0_end - buffersize)
-        while True:
-            found = list(self._findall_msb0(bs, start=pos, end=pos + buffersize, count=None, bytealigned=False))
-            if not found:
-                if pos == msb0_start:
-                    return
-                pos = max(msb0_start, pos - increment)
-                continue
+        # Each chunk finds the matches that start in [pos, top), so that every match is reported exactly once.
+        top = msb0_end - len(bs) + 1
+        while top > msb0_start:
+            pos = max(msb0_start, top - increment)
+            found = list(self._findall_msb0(bs, start=pos, end=top + len(bs) - 1, count=None, bytealigned=False))
             while found:
                 if count is not None and c >= count:
                     return
@@ -1374,10 +1370,7 @@ class Bits:
                 if not bytealigned or lsb0_pos % 8 == 0:
                     c += 1
                     yield lsb0_pos
-
-            pos = max(msb0_start, pos - increment)
-            if pos == msb0_start:
-                return
+            top = pos
 
     def rfind(self, bs: BitsType, /, start: Optional[int] = None, end: Optional[int] = None,
               bytealigned: Optional[bool] = None) -> Union[Tuple[int], Tuple[()]]:
